@@ -44,6 +44,8 @@ func runC07(c *Ctx) {
 		ruleStateMethodSet(c, p, "C07.state-methodset")
 		ruleConfigParsed(c, p, "C07.config")
 		ruleConflictsSymm(c, p, "C07.conflicts")
+		ruleResetComplete(c, p, "C07.reset-clears")
+		ruleRowsNeedTarget(c, p, "C07.rows-need-target")
 		ruleAutoAdopts(c, p, "C07.auto-adopt")
 		ruleForwardAll(c, p, "C07.forward-all")
 		ruleReadFullSized(c, p, "C07.readfull-sized")
